@@ -28,7 +28,8 @@ class ipaddress(FieldType):
         try:
             return self.val == ip_address(b)
         except ValueError:
-            return False
+            # not an address: let the other operand decide (so that `!=` is not derived as the inverse of this)
+            return NotImplemented
 
     def __hash__(self) -> int:
         return hash(self.val)
@@ -66,7 +67,8 @@ class ipnetwork(FieldType):
         try:
             return self.val == ip_network(b)
         except ValueError:
-            return False
+            # not a network: let the other operand decide (so that `!=` is not derived as the inverse of this)
+            return NotImplemented
 
     def __hash__(self) -> int:
         return hash(self.val)
